@@ -1,4 +1,5 @@
 import Props.C09
+import Model.Limiter
 /-!
 # C01 — the background queue hands every appended entry to the stream exactly once, in order
 
@@ -187,6 +188,77 @@ theorem c01_report_only_without_subscriber {s s' : QState} {ev : Ev} (h : step s
 /-- Installing a subscriber is an event like any other: it changes nothing but the flag. -/
 theorem c01_set_subscriber (s : QState) (present : Bool) :
     step s (.setSubscriber present) = some { s with noSubscriber := !present } := rfl
+
+/-! ### "rate-limited": the limiter that guards the report (`rate_limited!`, one second) -/
+
+theorem limiter_fires_le (hi : Nat) : ∀ (ts : List Nat) (next : Nat), ts.Pairwise (· ≤ ·) → (∀ t ∈ ts, t ≤ hi) →
+    Limiter.fires next ts ≤ (hi / 1000 + 1) - max next (match ts with | [] => hi / 1000 + 1 | t :: _ => t / 1000)
+  | [], _, _, _ => by simp [Limiter.fires]
+  | t :: ts, next, hs, hb => by
+    have htb : t ≤ hi := hb t (by simp)
+    have hdiv : t / 1000 ≤ hi / 1000 := Nat.div_le_div_right htb
+    have hs' := (List.pairwise_cons.mp hs).2
+    have hhead := (List.pairwise_cons.mp hs).1
+    have hb' : ∀ x ∈ ts, x ≤ hi := fun x hx => hb x (by simp [hx])
+    simp only [Limiter.fires]
+    by_cases hfire : next ≤ t / 1000
+    · have hcall : Limiter.call next t = (true, t / 1000 + 1) := by
+        have h1 : (t + 1000) / 1000 = t / 1000 + 1 := by omega
+        simp [Limiter.call, hfire, h1]
+      rw [hcall]
+      simp only [if_true]
+      have ih := limiter_fires_le hi ts (t / 1000 + 1) hs' hb'
+      cases ts with
+      | nil => simp [Limiter.fires] at ih ⊢; omega
+      | cons u us =>
+        simp only at ih ⊢
+        have : t / 1000 ≤ u / 1000 := Nat.div_le_div_right (hhead u (by simp))
+        omega
+    · have hcall : Limiter.call next t = (false, next) := by simp [Limiter.call, hfire]
+      rw [hcall]
+      simp only [Bool.false_eq_true, if_false, Nat.zero_add]
+      have ih := limiter_fires_le hi ts next hs' hb'
+      cases ts with
+      | nil => simp [Limiter.fires]
+      | cons u us =>
+        simp only at ih ⊢
+        omega
+
+/-- **The in-band report is rate-limited.** Whatever the limiter's state and however many validation
+failures occur: over any sequence of calls (in time order) that lie in a window `[a, a + d]`, the guarded
+expression — writing the report — is evaluated at most `⌊d⌋ + 2` times (`d` in seconds; `+2` only when the
+window crosses a whole-second boundary of the process clock, otherwise `⌊d⌋ + 1`). This is the bound the
+harness applies to a burst of validation failures (`Limiter.windowBound`). -/
+theorem c01_limiter_bound (next a d : Nat) (ts : List Nat) (hs : ts.Pairwise (· ≤ ·))
+    (hw : ∀ t ∈ ts, a ≤ t ∧ t ≤ a + d) : Limiter.fires next ts ≤ Limiter.windowBound d := by
+  have h := limiter_fires_le (a + d) ts next hs (fun t ht => (hw t ht).2)
+  unfold Limiter.windowBound
+  cases ts with
+  | nil => simp [Limiter.fires]
+  | cons t rest =>
+    simp only at h
+    have h1 : a / 1000 ≤ t / 1000 := Nat.div_le_div_right (hw t (by simp)).1
+    have h2 : (a + d) / 1000 ≤ a / 1000 + d / 1000 + 1 := by omega
+    omega
+
+/-- The limiter closes for the rest of the current second after every evaluation: two evaluations are
+never in the same whole second. -/
+theorem c01_limiter_closes (next t : Nat) (h : (Limiter.call next t).1 = true) (u : Nat) (hu : u / 1000 = t / 1000) :
+    (Limiter.call (Limiter.call next t).2 u).1 = false := by
+  unfold Limiter.call at h ⊢
+  by_cases hn : next ≤ t / 1000
+  · simp only [hn, if_true]
+    have : ¬ (t / 1000 + 1 ≤ u / 1000) := by omega
+    have h1 : (t + 1000) / 1000 = t / 1000 + 1 := by omega
+    simp [h1, this]
+  · simp [hn] at h
+
+/-- The seeded variant (`next := previous slot + interval` instead of `now + interval`) is NOT rate
+limited in this sense: one evaluation at time 0, silence for five seconds, then five calls within 4 ms
+are all evaluated — five reports in a window whose bound is two. -/
+theorem c01_limiter_catchup_violates :
+    Limiter.firesCatchUp 1 [5000, 5001, 5002, 5003, 5004] = 5 ∧ Limiter.windowBound 4 = 2 ∧
+    Limiter.fires 1 [5000, 5001, 5002, 5003, 5004] = 1 := by decide
 
 /-! ### Stream errors do not prevent, repeat or reorder any other entry -/
 
@@ -478,6 +550,9 @@ end Queue
 #print axioms Queue.c01_only_reports_extra
 #print axioms Queue.c01_report_only_without_subscriber
 #print axioms Queue.c01_set_subscriber
+#print axioms Queue.c01_limiter_bound
+#print axioms Queue.c01_limiter_closes
+#print axioms Queue.c01_limiter_catchup_violates
 #print axioms Queue.c01_errors_independent
 #print axioms Queue.c01_no_lost_wakeup
 #print axioms Queue.c01_quiescent_all_delivered
